@@ -269,6 +269,87 @@ def _call_edit_call(fn):
     return (ref, second, bool(np.array_equal(ref, second)))
 
 
+def probe_list():
+    gb()
+    from gbasis.evals.eval import evaluate_basis
+    from gbasis.evals.eval_deriv import evaluate_deriv_basis
+    from gbasis.integrals.electron_repulsion import electron_repulsion_integral
+    from gbasis.integrals.kinetic_energy import kinetic_energy_integral
+    from gbasis.integrals.moment import moment_integral
+    from gbasis.integrals.momentum import momentum_integral
+    from gbasis.integrals.overlap import overlap_integral
+    from gbasis.integrals.point_charge import point_charge_integral
+    from gbasis.spherical import generate_transformation
+
+    return [("overlap", lambda w: overlap_integral(w["basis_tuple"])),
+            ("kinetic", lambda w: kinetic_energy_integral(w["basis_list"])),
+            ("evaluate_basis", lambda w: evaluate_basis(w["basis_tuple"], w["points"])),
+            ("point_charge", lambda w: point_charge_integral(w["basis_tuple"], w["charge_coords"], w["charges"], transform=w["T_rect"])),
+            ("point_charge other charges", lambda w: point_charge_integral(w["basis_tuple"], w["nuc_coords"], w["nuc_charges"])),
+            ("momentum", lambda w: momentum_integral(w["basis_tuple"])),
+            ("moment", lambda w: moment_integral(w["basis_list"], w["origin"], w["orders"])),
+            ("moment other origin", lambda w: moment_integral(w["basis_list"], w["origin"][::-1] + 0.5, w["orders"][::-1])),
+            ("eri", lambda w: electron_repulsion_integral(w["basis_tuple"][:2], notation="chemist")),
+            ("deriv", lambda w: evaluate_deriv_basis(w["basis_tuple"], w["points"], w["deriv_orders"])),
+            ("evaluate_basis other points", lambda w: evaluate_basis(w["basis_tuple"], w["nuc_coords"])),
+            ("transformation other cartesian order", lambda w: generate_transformation(
+                2, w["basis_tuple"][1].angmom_components_cart[::-1], w["basis_tuple"][1].angmom_components_sph, "left")),
+            ("norms", lambda w: [s.norm_cont for s in w["shells"]])]
+
+
+def probe_names():
+    return [n for n, _ in probe_list()]
+
+
+def _probe_digests(w, only=None):
+    from ..history import result_digest
+
+    out = {}
+    for name, fn in probe_list():
+        if only is not None and name != only:
+            continue
+        try:
+            out[name] = ("ok", result_digest(fn(w)))
+        except Exception as e:  # noqa
+            out[name] = ("raise", type(e).__name__)
+    return out
+
+
+class FreshProcess:
+    """A separate, freshly started interpreter (mc/zygote.py) that evaluates the probes for a pickled world in a
+    forked child without any call history."""
+
+    def __init__(self):
+        import subprocess
+        import sys as _sys
+        from ..core import REPO, VERIF
+
+        env = dict(os.environ, GBASIS_VERIF_REPO=REPO)
+        self.proc = subprocess.Popen([_sys.executable, os.path.join(VERIF, "mc", "zygote.py")], stdin=subprocess.PIPE,
+                                     stdout=subprocess.PIPE, env=env)
+
+    def __call__(self, w):
+        import pickle as _p
+        import struct
+
+        msg = _p.dumps(w)
+        self.proc.stdin.write(struct.pack("<Q", len(msg)))
+        self.proc.stdin.write(msg)
+        self.proc.stdin.flush()
+        n = struct.unpack("<Q", self.proc.stdout.read(8))[0]
+        return _p.loads(self.proc.stdout.read(n))
+
+    def close(self):
+        import struct
+
+        try:
+            self.proc.stdin.write(struct.pack("<Q", 0))
+            self.proc.stdin.flush()
+            self.proc.wait(5)
+        except Exception:
+            self.proc.kill()
+
+
 def rebuild_world(w):
     """same world with every shell re-created from its documented attributes (fresh objects, no hidden state)"""
     import copy as _c
@@ -331,15 +412,7 @@ def evaluate(cfg):
     try:
         mk = make_world_factory(cfg, tmpdir)
         ops = build_ops(cfg)
-        probes = [("overlap", lambda w: overlap_integral(w["basis_tuple"])),
-                  ("kinetic", lambda w: kinetic_energy_integral(w["basis_list"])),
-                  ("evaluate_basis", lambda w: evaluate_basis(w["basis_tuple"], w["points"])),
-                  ("point_charge", lambda w: point_charge_integral(w["basis_tuple"], w["charge_coords"], w["charges"], transform=w["T_rect"])),
-                  ("momentum", lambda w: momentum_integral(w["basis_tuple"])),
-                  ("moment", lambda w: moment_integral(w["basis_list"], w["origin"], w["orders"])),
-                  ("eri", lambda w: electron_repulsion_integral(w["basis_tuple"][:2], notation="chemist")),
-                  ("deriv", lambda w: evaluate_deriv_basis(w["basis_tuple"], w["points"], w["deriv_orders"])),
-                  ("norms", lambda w: [s.norm_cont for s in w["shells"]])]
+        probes = probe_list()
         parts = ["shells", "basis_tuple", "basis_list", "points", "charge_coords", "charges", "nuc_coords", "nuc_charges",
                  "origin", "orders", "deriv_orders", "gam_psd", "gam_sym", "gam_asym", "gam_round", "T_sq", "T_rect", "T_bad", "ct_list",
                  "ct_tuple", "basis_dict", "atoms", "atom_coords", "alt_exps", "alt_coeffs", "alt_coord", "files"]
@@ -350,7 +423,12 @@ def evaluate(cfg):
             ex = HistoryExplorer(o, mk, ops, probes, parts, max_depth=30,
                                  max_states=60 if cfg.get("tier") == "quick" else 400,
                                  on_renorm=on_renorm_factory(cfg), rebuild=rebuild_world)
-            ex.explore()
+            fresh = FreshProcess()
+            ex.fresh = fresh
+            try:
+                ex.explore()
+            finally:
+                fresh.close()
         o.notes["operations"] = len(ops)
     finally:
         np.seterr(**old)
